@@ -107,6 +107,20 @@ def space(tier):
                         out.append(P(R64, "r = (%s %s %s) %s %s;" % (x, o1, y, o2, z), ["r"], tag=("fold2-bin", x, o1, y, o2, z)))
             out.append(P([("int32_t", "a", "input")] + R64, "r = (~%s > %s) ? a : (a + 1);" % (x, y), ["r"], tag=("fold2-cond", x, y)))
             out.append(P([("int32_t", "a", "input")] + R64, "r = ((%s + %s) == 0U) ? a : (a + 1);" % (x, y), ["r"], tag=("fold2-cond2", x, y)))
+    # truth values the compiler computed (folded comparisons, !, && and || of literals) as operands of further folds:
+    # a truth value is an int (C11 6.5.8p6, 6.5.3.3p5), so (1 < 2) + (2 < 3) is 2 and -(1 < 2) is -1
+    BOOLS = ["(1 < 2)", "(2 < 1)", "(1 == 1)", "(0U >= 1)", "!0", "!5", "(1 && 2)", "(0 || 0)", "(4294967295U > -1)"]
+    for x in BOOLS:
+        for u in ("-", "~", "!", "+"):
+            out.append(P(R64, "r = %s%s;" % (u, x), ["r"], tag=("fold-bool-un", u, x)))
+        for y in BOOLS + ["1", "2U", "-1", "3LL"]:
+            for op in ("+", "-", "*", "<", ">", "==", "!=", "<=", ">=", "&&", "||"):  # (run-time / is C02's subject: ! is not folded)
+                out.append(P(R64, "r = %s %s %s;" % (x, op, y), ["r"], tag=("fold-bool", x, op, y)))
+                if y not in BOOLS:
+                    out.append(P(R64, "r = %s %s %s;" % (y, op, x), ["r"], tag=("fold-bool-r", x, op, y)))
+        out.append(P([("int32_t", "a", "input")] + R64, "r = (%s + %s) ? a : (a + 1);" % (x, BOOLS[0]), ["r"], tag=("fold-bool-cond", x)))
+        out.append(P([("int32_t", "a", "input")] + R64, "r = a + %s + %s;" % (x, x), ["r"], tag=("fold-bool-var", x)))
+        out.append(P([("int32_t", "a", "input")] + R64, "r = a + (%s + %s);" % (x, x), ["r"], tag=("fold-bool-var2", x)))
     # metamorphic partners of the folded pairs: same expression over typed variables
     for x in S[:: (1 if tier == "thorough" else 3)]:
         for y in S[:: (1 if tier == "thorough" else 3)]:
